@@ -648,6 +648,8 @@ class SimBus:
         if prog is not None:
             pkt = bytearray(frame)
             before = bytes(pkt)
+            for m in self.rx_monitors:
+                m("pre-xdp", no, before)
             action, inst = self.kernel.run_xdp(prog, pkt)
             for m in self.rx_monitors:
                 m("xdp", no, before, bytes(pkt), action, inst)
